@@ -46,12 +46,12 @@ def block(rng, kind, span, grow_ok=True):
         al = rng.uniform(0.5, 2.0)
         om = rng.uniform(0.5, 4.0)
         ph = rng.uniform(0, 2 * math.pi)
-        return {"k": "forcing", "p": [fp(al), fp(om), fp(ph)]}, [rng.uniform(-1, 1)], 1, 0.0, 0.0
+        return {"k": "forcing", "p": [fp(al), fp(om), fp(ph)]}, [rng.uniform(-1, 1)], 1, 0.0, om
     if kind == "rough":   # fast forcing: forces rejections
         al = rng.uniform(2.0, 6.0)
         om = rng.uniform(8.0, 40.0)
         ph = rng.uniform(0, 2 * math.pi)
-        return {"k": "forcing", "p": [fp(al), fp(om), fp(ph)]}, [rng.uniform(-1, 1)], 1, 0.0, 0.0
+        return {"k": "forcing", "p": [fp(al), fp(om), fp(ph)]}, [rng.uniform(-1, 1)], 1, 0.0, om
     if kind == "relax":
         kk = rng.uniform(0.5, 3.0)
         c = rng.uniform(-1, 1)
@@ -132,3 +132,33 @@ def generic_system(rng, dim):
            "eps": [fp(co()) for _ in range(dim)]}
     y0 = [cpair(rng.uniform(0.2, 1.0) * rng.choice([-1, 1])) for _ in range(dim)]
     return rhs, y0
+
+
+HIGH = {"rk45", "adams5", "bdf6"}
+
+
+def accuracy_case(rng, solver, kinds, tol, dim=None, span=None, cx=False):
+    """C02/C04 case: dtmax tied to the tolerance by the property's precondition
+    (rate*dtmax <= 2 tol^(1/5) for the high-order solvers, <= tol^(1/3) for the low-order ones)"""
+    dim = dim or rng.randint(1, 4)
+    span = span or rng.uniform(0.5, 2.5)
+    t0 = rng.choice([0.0, rng.uniform(-1, 1)])
+    if cx:
+        blocks, y0, rate = [], [], 0.0
+        for _ in range(dim):
+            a = rng.uniform(-1.0, 0.3)
+            b = rng.uniform(0.5, 3.0) * rng.choice([-1, 1])
+            c = (rng.uniform(-1, 1), rng.uniform(-1, 1))
+            blocks.append({"k": "clin", "p": [fp(a), fp(b), fp(c[0]), fp(c[1])]})
+            y0.append(cpair(rng.uniform(0.3, 1.5), rng.uniform(-1, 1)))
+            rate = max(rate, math.hypot(a, b))
+        rhs = {"fam": "blocks", "blocks": blocks}
+    else:
+        rhs, y0, rate = system(rng, dim, span, t0, kinds=kinds)
+    rate = max(rate, 0.3)
+    lim = 2 * tol ** 0.2 / rate if solver in HIGH else tol ** (1.0 / 3) / rate
+    dtmax = min(0.5, lim)
+    dtmin = dtmax * 1e-7
+    c = base_case(0, solver, dim, t0, t0 + span, dtmin, dtmax, tol, rhs, y0, cx=cx,
+                  lip=fp(rate), acc="both", pair="", budget=3000000, max_items=200000)
+    return c
